@@ -93,6 +93,8 @@ def check_property(prop, tier, seed, run_symbolic, lock, verbose=False, jobs=Non
         o.setdefault('task', 'extras')
     obligations += [o for o in extra_obs if prop in o['props']]
     errors = [(r['key'], e) for r in results for e in r['errors']] + [('extras', e) for e in extra_info.get('errors', [])]
+    errors += [('contracts', 'function under contract is no longer in the source: %s' % k)
+               for k in sorted(set(getattr(eng, 'missing_functions', [])))]
     undecided = [(r['key'], u) for r in results for u in r['undecided']] + \
                 [('extras', u) for u in extra_info.get('undecided', [])]
 
